@@ -14274,6 +14274,8 @@ gcry_error_t CallasDonnerhackeFinneyShawThayerRFC4880::SymmetricEncryptAEAD
 	}
 	if (verbose > 2)
 		std::cerr << std::dec << std::endl;
+	unsigned char ivstart[16]; // the nonce of chunk i is ivstart xor i
+	memcpy(ivstart, ivbuf, sizeof(ivstart));
 	if (ad.size() == 4) // identifies an AEAD-encrypted SKESK packet (version 5)
 	{
 		ret = gcry_cipher_setiv(hd, ivbuf, is);
@@ -14403,6 +14405,7 @@ gcry_error_t CallasDonnerhackeFinneyShawThayerRFC4880::SymmetricEncryptAEAD
 				std::cerr << "INFO: SymmetricEncryptAEAD on chunk #" <<
 					chunkidx << " with nbytes = " << nbytes << std::endl;
 			}
+			memcpy(ivbuf, ivstart, sizeof(ivbuf));
 			switch (aeadalgo)
 			{
 				// The nonce for EAX mode is computed by treating the starting
@@ -14526,6 +14529,7 @@ gcry_error_t CallasDonnerhackeFinneyShawThayerRFC4880::SymmetricEncryptAEAD
 			std::cerr << "INFO: SymmetricEncryptAEAD on final chunk #" <<
 				chunkidx << " with nbytes = " << nbytes << std::endl;
 		}
+		memcpy(ivbuf, ivstart, sizeof(ivbuf));
 		switch (aeadalgo)
 		{
 			case TMCG_OPENPGP_AEADALGO_EAX:
@@ -14658,6 +14662,7 @@ gcry_error_t CallasDonnerhackeFinneyShawThayerRFC4880::SymmetricEncryptAEAD
 				totalbytes << std::endl;
 		}
 		chunkidx++;
+		memcpy(ivbuf, ivstart, sizeof(ivbuf));
 		switch (aeadalgo)
 		{
 			case TMCG_OPENPGP_AEADALGO_EAX:
@@ -15084,6 +15089,8 @@ gcry_error_t CallasDonnerhackeFinneyShawThayerRFC4880::SymmetricDecryptAEAD
 	}
 	if (verbose > 2)
 		std::cerr << std::dec << std::endl;
+	unsigned char ivstart[16]; // the nonce of chunk i is ivstart xor i
+	memcpy(ivstart, ivbuf, sizeof(ivstart));
 	if (ad.size() == 4) // identifies an AEAD-encrypted SKESK packet (version 5)
 	{
 		ret = gcry_cipher_setiv(hd, ivbuf, is);
@@ -15198,6 +15205,7 @@ gcry_error_t CallasDonnerhackeFinneyShawThayerRFC4880::SymmetricDecryptAEAD
 				std::cerr << "INFO: SymmetricDecryptAEAD on chunk #" <<
 					chunkidx << " with nbytes = " << nbytes << std::endl;
 			}
+			memcpy(ivbuf, ivstart, sizeof(ivbuf));
 			switch (aeadalgo)
 			{
 				// The nonce for EAX mode is computed by treating the starting
@@ -15293,6 +15301,7 @@ gcry_error_t CallasDonnerhackeFinneyShawThayerRFC4880::SymmetricDecryptAEAD
 			std::cerr << "INFO: SymmetricDecryptAEAD on final chunk #" <<
 				chunkidx << " with nbytes = " << nbytes << std::endl;
 		}
+		memcpy(ivbuf, ivstart, sizeof(ivbuf));
 		switch (aeadalgo)
 		{
 			case TMCG_OPENPGP_AEADALGO_EAX:
@@ -15418,6 +15427,7 @@ gcry_error_t CallasDonnerhackeFinneyShawThayerRFC4880::SymmetricDecryptAEAD
 				totalbytes << std::endl;
 		}
 		chunkidx++;
+		memcpy(ivbuf, ivstart, sizeof(ivbuf));
 		switch (aeadalgo)
 		{
 			case TMCG_OPENPGP_AEADALGO_EAX:
